@@ -21,6 +21,11 @@ MUTATORS = {'append', 'extend', 'insert', 'update', 'add', 'pop', 'remove', 'cle
             'reverse', 'discard', 'write', 'writelines', '__setitem__', '__delitem__'}
 
 
+# functions the analyses reason about symbolically (never inlined)
+DEFAULT_OPAQUE = {'parse_immediate', 'lookup_register', 'is_int', 'log_constant', 'log_conversion', 'relocate_hi', 'relocate_lo',
+                  'sign_extend', 'eval_immediate', 'lex_tokens', 'parse_item', 'read_lines', 'assemble', 'cli_main'}
+
+
 def C(v):
     return ('const', v)
 
@@ -87,6 +92,10 @@ def show(v, depth=0):
         return '{}({})'.format(show(v[1]), ', '.join(show(a) for a in v[2]))
     if k == 'closure':
         return v[1]
+    if k == 'lambda':
+        return v[2]
+    if k == 'kwdict':
+        return '**{' + ', '.join('{}={}'.format(a, show(b)) for a, b in v[1]) + '}'
     if k == 'ifexp':
         return '({} if {} else {})'.format(show(v[2]), show(v[1]), show(v[3]))
     if k == 'slice':
@@ -104,9 +113,11 @@ class PathState:
         self.conds = []        # (test symbolic value, polarity, ast node)
         self.end = None
         self.end_node = None
+        self.sites = {}        # event index -> outermost call node through which the event was reached (inlining)
 
     def clone(self):
         s = PathState()
+        s.sites = dict(self.sites)
         s.env = dict(self.env)
         s.facts = {k: {'isa': set(v['isa']), 'nota': set(v['nota']), 'eq': v['eq'], 'ne': set(v['ne']), 'truthy': v.get('truthy')}
                    for k, v in self.facts.items()}
@@ -124,9 +135,13 @@ class PathState:
 class Walker:
     """Enumerates paths through a statement list."""
 
-    def __init__(self, facts, loop_var=None, class_of=None, max_paths=40000, name_results=False):
+    def __init__(self, facts, loop_var=None, class_of=None, max_paths=40000, name_results=False, inline='default', opaque=()):
         self.facts = facts
         self.name_results = name_results
+        self.inline_mode = inline            # 'default': effectful + small pure module-level helpers ; 'all': every module-level
+        self.opaque = set(opaque) | DEFAULT_OPAQUE   # function and local closure except the opaque ones
+        self._lambdas = {}
+        self._inline_stack = []
         self.loop_var = loop_var
         self.max_paths = max_paths
         self.n_paths = 0
@@ -158,7 +173,14 @@ class Walker:
                     args.append(('star', self.sym(a.value, st)))
                 else:
                     args.append(self.sym(a, st))
-            kwargs = tuple((kw.arg, self.sym(kw.value, st)) for kw in node.keywords)
+            kwl = []
+            for kw in node.keywords:
+                v_ = self.sym(kw.value, st)
+                if kw.arg is None and v_[0] == 'kwdict':
+                    kwl.extend(v_[1])
+                else:
+                    kwl.append((kw.arg, v_))
+            kwargs = tuple(kwl)
             args = tuple(args)
             if isinstance(node.func, ast.Name) and node.func.id in self.facts.classes and node.func.id not in st.env:
                 return ('new', node.func.id, args, kwargs)
@@ -172,7 +194,31 @@ class Walker:
                 return ('mcall', recv, node.func.attr, args, kwargs)
             if isinstance(node.func, ast.Name):
                 if node.func.id in st.env:
-                    return ('callv', st.env[node.func.id], args, kwargs)
+                    target = st.env[node.func.id]
+                    if target[0] == 'lambda' and target[1] in self._lambdas and not kwargs:
+                        lnode, lenv = self._lambdas[target[1]]
+                        params = [a.arg for a in lnode.args.args]
+                        if len(params) == len(args) and not any(a[0] == 'star' for a in args):
+                            s2 = st.clone()
+                            s2.env = dict(lenv)
+                            s2.env.update(zip(params, args))
+                            return self.sym(lnode.body, s2)
+                    return ('callv', target, args, kwargs)
+                pf = self.pure_expr_fn(node.func.id)
+                if pf is not None and not kwargs and not any(a[0] == 'star' for a in args):
+                    params = [a.arg for a in pf.args.args]
+                    if len(args) <= len(params) and len(params) - len(args) <= len(pf.args.defaults):
+                        s2 = PathState()
+                        s2.facts = st.facts
+                        s2.env = dict(zip(params, args))
+                        for p_, d_ in zip(params[len(params) - len(pf.args.defaults):], pf.args.defaults):
+                            if p_ not in s2.env:
+                                s2.env[p_] = self.sym(d_, PathState())
+                        self._inline_stack.append(node.func.id)
+                        try:
+                            return self.sym(pf.body[-1].value, s2)
+                        finally:
+                            self._inline_stack.pop()
                 return ('call', node.func.id, args, kwargs)
             return ('call', unparse(node.func), args, kwargs)
         if isinstance(node, ast.BinOp):
@@ -245,7 +291,8 @@ class Walker:
         if isinstance(node, ast.JoinedStr):
             return ('opaque', unparse(node))
         if isinstance(node, ast.Lambda):
-            return ('opaque', unparse(node))
+            self._lambdas[id(node)] = (node, dict(st.env))
+            return ('lambda', id(node), unparse(node))
         return ('opaque', unparse(node))
 
     # -- deciding tests --------------------------------------------------------------------------------------------
@@ -498,40 +545,133 @@ class Walker:
         cache[name] = res
         return res
 
+    def small_pure_helper(self, name):
+        """A small module-level function without loops / try that is not a pipeline pass: inlined so that a guard or a
+        computation moved into a helper is still seen on the caller's path."""
+        cache = self.__dict__.setdefault('_small', {})
+        if name in cache:
+            return cache[name]
+        fn = self.facts.funcs.get(name)
+        ok = False
+        if fn is not None and not fn.args.vararg and name not in self.opaque:
+            n_stmt = sum(1 for n in ast.walk(fn) if isinstance(n, ast.stmt))
+            has_loop = any(isinstance(n, (ast.For, ast.While, ast.Try, ast.With, ast.FunctionDef)) and n is not fn for n in ast.walk(fn))
+            ok = n_stmt <= 30 and not has_loop
+        cache[name] = ok
+        return ok
+
+    PURE_BUILTINS = {'isinstance', 'len', 'int', 'bool', 'abs', 'min', 'max', 'tuple', 'list', 'set', 'frozenset', 'str', 'bytes', 'range'}
+
+    def pure_expr_fn(self, name):
+        """FunctionDef of a module-level function whose body is `return <expression>` with calls only to builtins / other such
+        functions (evaluated in place like a lambda, in inline='all' mode), or None."""
+        if self.inline_mode != 'all' or name in self.opaque or name in self._inline_stack or len(self._inline_stack) >= 6:
+            return None
+        cache = self.__dict__.setdefault('_pure', {})
+        if name in cache:
+            return cache[name]
+        fn = self.facts.funcs.get(name)
+        res = None
+        cache[name] = None
+        if fn is not None and not fn.args.vararg and not fn.args.kwarg and not fn.args.kwonlyargs:
+            body = [b for b in fn.body if not (isinstance(b, ast.Expr) and isinstance(b.value, ast.Constant))]
+            if len(body) == 1 and isinstance(body[0], ast.Return) and body[0].value is not None:
+                ok = True
+                for n in ast.walk(body[0].value):
+                    if isinstance(n, ast.Call):
+                        if not isinstance(n.func, ast.Name):
+                            ok = False
+                        elif n.func.id not in self.PURE_BUILTINS and (n.func.id == name or self.pure_expr_fn(n.func.id) is None):
+                            ok = False
+                    if isinstance(n, (ast.Lambda, ast.Await, ast.Yield, ast.YieldFrom, ast.NamedExpr)):
+                        ok = False
+                if ok:
+                    res = fn
+        cache[name] = res
+        return res
+
+    def inline_target(self, call, st):
+        """FunctionDef to inline for this Call node, or None."""
+        if not (isinstance(call, ast.Call) and isinstance(call.func, ast.Name)):
+            return None
+        name = call.func.id
+        if any(isinstance(a, ast.Starred) for a in call.args):
+            return None
+        if name in st.env:
+            v = st.env[name]
+            if self.inline_mode == 'all' and v[0] == 'closure' and len(v) > 2 and name not in self.opaque:
+                fn = self.__dict__.get('_closures', {}).get(v[2])
+                if fn is not None and name not in self._inline_stack:
+                    return fn
+            return None
+        if name not in self.facts.funcs or name in self.opaque or name in self._inline_stack:
+            return None
+        if self.pure_expr_fn(name) is not None:
+            return None          # evaluated in place by sym()
+        if len(self._inline_stack) >= (8 if self.inline_mode == 'all' else 4):
+            return None
+        fn = self.facts.funcs[name]
+        if fn.args.vararg:
+            return None
+        if self.inline_mode == 'all':
+            return fn
+        if self.effectful_helper(name) or self.small_pure_helper(name):
+            return fn
+        return None
+
     def inline_call(self, call, st, done):
         """[(state, return value)] after walking the helper's body with parameters bound to the argument values, or None."""
-        if not (isinstance(call, ast.Call) and isinstance(call.func, ast.Name) and call.func.id in self.facts.funcs
-                and call.func.id not in st.env and self.effectful_helper(call.func.id)):
+        fn = self.inline_target(call, st)
+        if fn is None:
             return None
-        depth = self.__dict__.setdefault('_inline_depth', 0)
-        if depth >= 2:
-            return None
-        fn = self.facts.funcs[call.func.id]
         pos = [a.arg for a in fn.args.args]
-        if len(call.args) > len(pos) or any(isinstance(a, ast.Starred) for a in call.args) or any(k.arg is None for k in call.keywords):
+        if len(call.args) > len(pos):
             return None
-        env = {}
+        is_closure = call.func.id in st.env
+        env = dict(st.env) if is_closure else {}
         for p_, a in zip(pos, call.args):
             env[p_] = self.sym(a, st)
+        extra = []
+        names = set(pos) | {a.arg for a in fn.args.kwonlyargs}
         for k in call.keywords:
-            env[k.arg] = self.sym(k.value, st)
+            v_ = self.sym(k.value, st)
+            if k.arg is None:
+                if v_[0] != 'kwdict':
+                    return None
+                items = v_[1]
+            else:
+                items = ((k.arg, v_),)
+            for kn, kv in items:
+                if kn in names:
+                    env[kn] = kv
+                elif fn.args.kwarg:
+                    extra.append((kn, kv))
+                else:
+                    return None
+        if fn.args.kwarg:
+            env[fn.args.kwarg.arg] = ('kwdict', tuple(extra))
         defaults = dict(zip(pos[len(pos) - len(fn.args.defaults):], fn.args.defaults))
         for a, d in zip(fn.args.kwonlyargs, fn.args.kw_defaults):
             if d is not None:
                 defaults[a.arg] = d
         for p_ in pos + [a.arg for a in fn.args.kwonlyargs]:
-            if p_ not in env:
-                if p_ not in defaults:
+            if p_ not in env or (is_closure and p_ in st.env and p_ not in [x for x, _ in zip(pos, call.args)] and p_ not in [k.arg for k in call.keywords]):
+                if p_ in defaults:
+                    env[p_] = self.sym(defaults[p_], PathState())
+                elif p_ not in env:
                     return None
-                env[p_] = self.sym(defaults[p_], PathState())
         caller_env = st.env
         st.env = env
-        self._inline_depth = depth + 1
+        n0 = len(st.events)
+        self._inline_stack.append(call.func.id)
         inner_done = []
         try:
             live = self.block(fn.body, st, inner_done)
         finally:
-            self._inline_depth = depth
+            self._inline_stack.pop()
+        for s in list(live) + inner_done:
+            for i_ in range(n0, len(s.events)):
+                s.sites[i_] = call
         out = []
         for s in live:
             s.env = dict(caller_env)
@@ -549,6 +689,49 @@ class Walker:
                 done.append(s)
         return out
 
+    def expand_calls(self, node, st, done):
+        """Hoist inlinable calls nested inside an expression: [(state, rewritten expression)] where every such call has been
+        walked (forking paths as needed) and replaced by a temporary holding its symbolic result."""
+        import copy as _copy
+        if node is None or not any(isinstance(n, ast.Call) and self.inline_target(n, st) is not None for n in ast.walk(node)):
+            return [(st, node)]
+        node = _copy.deepcopy(node)
+        states = [st]
+        counter = self.__dict__.setdefault('_tmp', [0])
+        while True:
+            # innermost inlinable call
+            target = None
+            for n in ast.walk(node):
+                if isinstance(n, ast.Call) and self.inline_target(n, states[0]) is not None:
+                    inner = [m for m in ast.walk(n) if m is not n and isinstance(m, ast.Call) and self.inline_target(m, states[0]) is not None]
+                    if not inner:
+                        target = n
+                        break
+            if target is None:
+                break
+            counter[0] += 1
+            tmp = '__inl{}'.format(counter[0])
+            nxt = []
+            for s_ in states:
+                res = self.inline_call(target, s_, done)
+                if res is None:
+                    return [(st, node)]
+                for s2, rv in res:
+                    s2.env[tmp] = rv
+                    nxt.append(s2)
+            states = nxt
+            if not states:
+                return []
+            repl = ast.copy_location(ast.Name(id=tmp, ctx=ast.Load()), target)
+
+            class R(ast.NodeTransformer):
+                def visit_Call(self_inner, n):
+                    if n is target:
+                        return repl
+                    return self_inner.generic_visit(n)
+            node = R().visit(node)
+        return [(s_, node) for s_ in states]
+
     def stmt(self, node, st, done):
         if isinstance(node, ast.Expr):
             if isinstance(node.value, ast.Constant):
@@ -556,9 +739,13 @@ class Walker:
             inl = self.inline_call(node.value, st, done)
             if inl is not None:
                 return [s for s, _ in inl]
-            v = self.sym(node.value, st)
-            st.events.append(self.effect(v, node))
-            return [st]
+            out = []
+            for s, e in self.expand_calls(node.value, st, done):
+                v = self.sym(e, s)
+                if not (v[0] in ('name',) and isinstance(e, ast.Name) and e.id.startswith('__inl')):
+                    s.events.append(self.effect(v, node))
+                out.append(s)
+            return out
         if isinstance(node, ast.Assign):
             inl = self.inline_call(node.value, st, done)
             if inl is not None:
@@ -568,12 +755,32 @@ class Walker:
                         self.assign(tgt, rv, s, node)
                     out.append(s)
                 return out
+            pairs = self.expand_calls(node.value, st, done)
+            if len(pairs) != 1 or pairs[0][1] is not node.value:
+                out = []
+                for s, e in pairs:
+                    fake = ast.copy_location(ast.Assign(targets=node.targets, value=e), node)
+                    out.extend(self._assign_stmt(fake, s, done, node))
+                return out
+            return self._assign_stmt(node, st, done, node)
+        return self._stmt_rest(node, st, done)
+
+    def _assign_stmt(self, node, st, done, orig):
+        if True:
             v = self.sym(node.value, st)
-            if v[0] in ('call', 'mcall', 'callv', 'new') and any(isinstance(n, ast.Call) for n in ast.walk(node.value)):
-                st.events.append(('value', v, node))
+            if self.name_results and v[0] in ('call', 'mcall', 'callv', 'ctx') and any(isinstance(n, ast.Call) for n in ast.walk(node.value)):
+                uid = self.__dict__.setdefault('_uid', [0])
+                uid[0] += 1
+                tg = node.targets[0]
+                nm = tg.id if isinstance(tg, ast.Name) else '_'.join(e.id for e in getattr(tg, 'elts', []) if isinstance(e, ast.Name)) or 'tmp'
+                v = ('res', nm, getattr(orig, 'lineno', 0), v, uid[0])
+            if (v[0] in ('call', 'mcall', 'callv', 'new') or (v[0] == 'res')) and any(isinstance(n, ast.Call) for n in ast.walk(node.value)):
+                st.events.append(('value', v, orig))
             for tgt in node.targets:
-                self.assign(tgt, v, st, node)
+                self.assign(tgt, v, st, orig)
             return [st]
+
+    def _stmt_rest(self, node, st, done):
         if isinstance(node, ast.AugAssign):
             rhs = self.sym(node.value, st)
             if isinstance(node.target, ast.Name):
@@ -585,17 +792,31 @@ class Walker:
                 st.events.append(('augstore', self.sym(node.target, st), _OPS.get(type(node.op), '?'), rhs, node))
             return [st]
         if isinstance(node, ast.If):
-            return self.fork(node.test, st, done, node.body, node.orelse)
+            out = []
+            for s, e in self.expand_calls(node.test, st, done):
+                out.extend(self.fork(e, s, done, node.body, node.orelse))
+            return out
         if isinstance(node, ast.Continue):
             return self.finish(st, 'continue', node, done)
         if isinstance(node, ast.Break):
             return self.finish(st, 'break', node, done)
         if isinstance(node, ast.Return):
-            st.events.append(('return', self.sym(node.value, st), node))
-            return self.finish(st, 'return', node, done)
+            for s, e in self.expand_calls(node.value, st, done):
+                v = self.sym(e, s)
+                if self.name_results and v[0] in ('call', 'mcall', 'callv') and self._inline_stack:
+                    # `return device.request(...)` inside an inlined helper: the call is an event of the caller's path
+                    uid = self.__dict__.setdefault('_uid', [0])
+                    uid[0] += 1
+                    v = ('res', 'return', getattr(node, 'lineno', 0), v, uid[0])
+                    s.events.append(('value', v, node))
+                s.events.append(('return', v, node))
+                self.finish(s, 'return', node, done)
+            return []
         if isinstance(node, ast.Raise):
-            st.events.append(('raise', self.sym(node.exc, st), node))
-            return self.finish(st, 'raise', node, done)
+            for s, e in self.expand_calls(node.exc, st, done):
+                s.events.append(('raise', self.sym(e, s), node))
+                self.finish(s, 'raise', node, done)
+            return []
         if isinstance(node, ast.Pass):
             return [st]
         if isinstance(node, ast.Assert):
@@ -618,7 +839,8 @@ class Walker:
                 s.events.append(('endwith', None, node))
             return out
         if isinstance(node, (ast.FunctionDef, ast.ClassDef)):
-            st.env[node.name] = ('closure', node.name)
+            st.env[node.name] = ('closure', node.name, id(node))
+            self.__dict__.setdefault('_closures', {})[id(node)] = node
             return [st]
         if isinstance(node, (ast.Import, ast.ImportFrom)):
             st.events.append(('import', unparse(node), node))
@@ -638,14 +860,10 @@ class Walker:
 
     def assign(self, tgt, v, st, node):
         if isinstance(tgt, ast.Name):
-            if self.name_results and v[0] in ('call', 'mcall', 'callv', 'ctx'):
-                v = ('res', tgt.id, getattr(node, 'lineno', 0), v)
             st.env[tgt.id] = v
         elif isinstance(tgt, (ast.Tuple, ast.List)):
             n = len(tgt.elts)
             star = [i for i, e in enumerate(tgt.elts) if isinstance(e, ast.Starred)]
-            if self.name_results and v[0] in ('call', 'mcall', 'callv'):
-                v = ('res', '_'.join(e.id for e in tgt.elts if isinstance(e, ast.Name)), getattr(node, 'lineno', 0), v)
             for i, e in enumerate(tgt.elts):
                 if v[0] in ('tuple', 'list') and not star and len(v[1]) == n:
                     self.assign(e, v[1][i], st, node)
